@@ -124,6 +124,9 @@ type Job struct {
 	// Mid-run control: at CtlAt, these steps are handed to the control agent.
 	CtlAt    *uint64   `json:"ctl_at"`
 	CtlSteps []CtlStep `json:"ctl_steps"`
+	// EndSteps are handed to the control agent after the workload has run to
+	// quiescence, followed by another Run.
+	EndSteps []CtlStep `json:"end_steps"`
 	// TraceAll attaches one recording tracer to every component and connection
 	// and returns the trace stream. ResetAt > 0 additionally resets every bottom
 	// and level (bottom-up, one acknowledged Reset at a time) at ResetAt/16 of the
@@ -205,6 +208,11 @@ func RunJob(j Job) (res Result) {
 		}
 	} else {
 		_ = engine.Run()
+		if len(j.EndSteps) > 0 {
+			a.Ctl.State.Steps = append(a.Ctl.State.Steps, j.EndSteps...)
+			a.Ctl.TickLater()
+			_ = engine.Run()
+		}
 		if j.SaveFinal != "" {
 			if err := sim.SaveCheckpoint(j.SaveFinal, j.BuildID); err != nil {
 				res.Error = "SaveCheckpoint(final): " + err.Error()
